@@ -227,8 +227,9 @@ CHANNELS = {
 def channel_inputs(name, prefix=None):
     spec = CHANNELS[name]
     prefix = prefix or name
-    states = {f"{prefix}_{s}": S(f"{prefix}_{s}") for s in spec["states"]}
-    params = {f"{prefix}_{p}": S(f"{prefix}_{p}") for p in spec["params"]}
+    # symbol names are prefix-free so that terms of renamed mechanisms are comparable
+    states = {f"{prefix}_{s}": S(s) for s in spec["states"]}
+    params = {f"{prefix}_{p}": S(p) for p in spec["params"]}
     params.update({g: S(g) for g in spec["globals_"]})
     return states, params
 
